@@ -76,7 +76,7 @@ CallStep(st, fr) ==
     [] k = "mallIn" ->
          IF t = "N" THEN Push(st, <<Acq(d), Fr("mallInN", d, "", v, 0), Rel(d)>>)
          ELSE IF t = "E" THEN Push(st, <<Acq(d), Fr("mallE", d, "", v, 0), Rel(d)>>)
-         ELSE Push(st, <<Acq(d), F1("mallInC", d), Rel(d)>>)
+         ELSE Push(st, <<Acq(d), F1("mallInC", d)>>)      \* releases the cell itself
     (* ---- group_by ---- *)
     [] k = "group_by" ->          \* q = keys, q2 = subject ids
          IF nd.dead THEN Fault(st, "spec:call-after-move")
@@ -125,13 +125,13 @@ MallStep(st, fr) ==
          THEN Push([st EXCEPT !.nodes[D].g = TRUE, !.nodes[D].f = FALSE], <<CallC(nd.d)>>)
          ELSE [st EXCEPT !.nodes[D].g = TRUE]
     [] fr.f = "mallInN" -> IF nd.f THEN Push(st, <<CallN(nd.d, fr.v)>>) ELSE st
-    [] fr.f = "mallInC" ->       \* holding D: start the next queued inner (under the lock) or count down
-         IF ~nd.f THEN st
+    [] fr.f = "mallInC" ->       \* holding D: hand the slot to the next queued inner (after releasing D) or count down
+         IF ~nd.f THEN Push(st, <<Rel(D)>>)
          ELSE IF nd.q # <<>>
-         THEN Push([st EXCEPT !.nodes[D].q = Tail(@)], <<Fr("mallSubInner", D, "", Head(nd.q), 0)>>)
+         THEN Push([st EXCEPT !.nodes[D].q = Tail(@)], <<Rel(D), Fr("mallSubInner", D, "", Head(nd.q), 0)>>)
          ELSE IF nd.n - 1 = 0 /\ nd.g
-         THEN Push([st EXCEPT !.nodes[D].n = @ - 1, !.nodes[D].f = FALSE], <<CallC(nd.d)>>)
-         ELSE [st EXCEPT !.nodes[D].n = @ - 1]
+         THEN Push([st EXCEPT !.nodes[D].n = @ - 1, !.nodes[D].f = FALSE], <<CallC(nd.d), Rel(D)>>)
+         ELSE Push([st EXCEPT !.nodes[D].n = @ - 1], <<Rel(D)>>)
     [] OTHER -> Fault(st, "spec:unknown-mall-frame")
 
 MallFrames == {"mallOutN", "mallSubInner", "mallE", "mallOutC", "mallInN", "mallInC"}
